@@ -1039,6 +1039,10 @@ func scnFiles(rep *Report, rng *Rng, tier string, outdir string) {
 			addBuild(FileInput{Width: w, Chunker: "size-1", Size: n, Seed: uint64(w)})
 		}
 	}
+	// the default chunker (chunker string "") on contents of at most one chunk: also in the quick tier
+	for _, n := range []int{0, 1, 1000, 4097} {
+		addBuild(FileInput{Width: 174, Chunker: "", Size: n, Seed: uint64(50 + n%7)})
+	}
 	// a very wide tree: more links per node than any size-derived cap (one root over 25000 leaves)
 	addBuild(FileInput{Width: 30000, Chunker: "size-1", Size: 25000, Seed: 7})
 	// deep, narrow trees (depth 8..10)
